@@ -230,6 +230,38 @@ def plans(draw, nodes, links, origins, dests):
 
 
 @st.composite
+def merge_stars(draw):
+    """3..5 source links merging at one node into one link (optionally followed by a bifurcation): many structurally
+    identical sub-expressions, which is where CasADi's common-subexpression elimination merges terms.  Names are
+    distinct, clash, or collide with CasADi's per-entry names (link "a" with >=2 segments and link "a_1")."""
+    K = draw(st.integers(3, 5))
+    shared = draw(st.booleans())
+    common = draw(link_params())
+    nodes = [f"n{i}" for i in range(K + 2)]
+    mode = draw(st.sampled_from(["distinct", "clash", "entry"]))
+    base = draw(st.sampled_from(["a", "A", "L"]))
+    pool = {"distinct": [f"{base}{i}" for i in range(K + 1)], "clash": [base, base + "b"],
+            "entry": [base, f"{base}_1", f"{base}_0", "B"]}[mode]
+    links = []
+    for k in range(K + 1):
+        p = dict(common) if shared else draw(link_params())
+        up, down = (nodes[k], nodes[K]) if k < K else (nodes[K], nodes[K + 1])
+        nm = pool[k] if mode == "distinct" else draw(st.sampled_from(pool))
+        links.append(dict(id=f"L{k}", name=nm, up=up, down=down, N=draw(st.integers(1, 3)), turnrate=1.0, vsl=None, alpha=None, **p))
+    if mode == "entry":
+        perm = draw(st.permutations(range(K)))
+        links[perm[0]].update(name=base, N=draw(st.integers(2, 3)))
+        links[perm[1]].update(name=f"{base}_1", N=1)
+    okinds = draw(st.sampled_from([["ideal"], ORIG_SRC]))
+    origins = [dict(id=f"O{k}", node=nodes[k], name=f"O{k}", kind=draw(st.sampled_from(okinds)), C=draw(pos(200, 5000))) for k in range(K)]
+    dests = [dict(id="D0", node=nodes[K + 1], name="D0", kind=draw(st.sampled_from(["free", "cong"])))]
+    nodes_ = [dict(id=n, name=n) for n in nodes]
+    sp = dict(nodes=nodes_, links=links, origins=origins, dests=dests, pars=draw(model_pars()))
+    sp["plan"] = draw(plans(nodes_, links, origins, dests))
+    return sp
+
+
+@st.composite
 def specs(
     draw,
     max_ops=10,
@@ -243,6 +275,7 @@ def specs(
     force_delta_phi=False,
     growth_log=None,
     long_links=True,
+    big=0,
 ):
     nodes, edges, origin, dest = draw(topologies(max_ops=max_ops, min_ops=min_ops, log=growth_log))
     shared = draw(st.integers(0, 2)) == 0
@@ -265,6 +298,28 @@ def specs(
         links.append(
             dict(id=f"L{k}", name=f"L{k}", up=u, down=v, N=N, turnrate=draw(st.one_of(pos(0.05, 5), pos(0.05, 5), st.integers(1, 4))), vsl=vsl, alpha=alpha, **p)
         )
+    if big and draw(st.integers(0, big - 1)) == 0:
+        # absolute size: one link replaced by a chain of 14..25 short links (more than 16 elements of one kind)
+        base = links[draw(st.integers(0, len(links) - 1))]
+        end, prev = base["down"], base
+        for _ in range(draw(st.integers(13, 24))):
+            nn = f"n{len(nodes)}"
+            nodes.append(nn)
+            new = dict(base, id=f"L{len(links)}", name=f"L{len(links)}", up=nn, down=end, N=draw(st.integers(1, 2)), vsl=None, alpha=None)
+            prev["down"] = nn
+            links.append(new)
+            prev = new
+    mode = draw(st.integers(0, 9))
+    if mode <= 2:
+        # turn rates as a user would type them: fractions of one, or tiny unnormalised weights
+        for n in nodes:
+            outs = [l for l in links if l["up"] == n]
+            tot = sum(float(l["turnrate"]) for l in outs)
+            for l in outs:
+                if mode <= 1 and len(outs) >= 2:
+                    l["turnrate"] = max(round(float(l["turnrate"]) / tot, 6), 1e-6)  # sums to one only up to the rounding
+                elif mode == 2:
+                    l["turnrate"] = float(l["turnrate"]) * 1e-12
     origins = []
     for k, (n, r) in enumerate(origin.items()):
         kinds = ORIG_SRC if r == "src" else ORIG_RAMP
@@ -321,7 +376,8 @@ def specs(
             for e in grp:
                 e["name"] = f"{pre}{next(it)}"
     elif names == "clash":
-        alphabet = ["a", "b", "c"]
+        # few names for many elements; the second alphabet also collides with CasADi's per-entry names (rho_a_1)
+        alphabet = draw(st.sampled_from([["a", "b", "c"], ["a", "b", "c"], ["a", "a_1", "a_0"]]))
         for grp in (nodes_, links, origins, dests):
             for e in grp:
                 e["name"] = draw(st.sampled_from(alphabet))
